@@ -443,6 +443,7 @@ def run(ctx):
                 run_pattern(ctx, n, renumber(adj, perm), rng.sample(FORMS, 2), cases, meta, seen, kind + "+renumbered")
     # 4. sparse input with stored zeros represents the same pattern (separate stream)
     explicit_zero_stream(ctx)
+    weighted_zero_stream(ctx)
     # 5. hardening audit: dress/dtype, state and call order, aliasing, optional arguments, boundaries, exceptions
     harden_stream(ctx, cases, meta, seen)
     # ---------------- Coq: repository-logic model on SciPy's outputs, validity of those outputs, spec-level model
@@ -671,6 +672,41 @@ def harden_stream(ctx, cases, meta, seen):
             if got != exp:
                 ctx.fail("stale_state_values", "labelled classes keep the old state_values after re-assignment",
                          {"n": n, "adj": adj, "seq": "reassign_state_values"}, got, exp)
+    # ---- state_values sequences with the digraph built BEFORE each set: None -> labels -> other labels -> None -> labels;
+    #      labelled variants must be the *_indices mapped through the CURRENT state_values (identity when None)
+    for (n, adj, A, ref) in objs:
+        if not all(adj):
+            continue
+        W = A / A.sum(axis=1, keepdims=True)
+        l1, l2, l3 = rng.sample(range(100, 200), n), rng.sample(range(300, 400), n), ["s%d" % x for x in rng.sample(range(50), n)]
+        seqs = rng.choice([[None, l1, l2, None, l3], [l1, None, l2, l3, None], [l2, l1, None, None, l3]])
+        for builder in (lambda P_: P_, lambda P_: sparse.csr_matrix(P_)):
+            m = guarded({"n": n, "adj": adj, "seq": "state_values_sequence"}, lambda: MarkovChain(builder(W), state_values=seqs[0]))
+            if m is None:
+                continue
+            cur = seqs[0]
+            for step, nxt in enumerate(seqs[1:] + [None]):
+                inp = {"n": n, "adj": adj, "seq": "state_values_sequence", "values": [str(v)[:40] for v in seqs], "step": step}
+                def labelled():
+                    out = {"communication": ([np.asarray(c).tolist() for c in m.communication_classes], tolists(m.communication_classes_indices)),
+                           "recurrent": ([np.asarray(c).tolist() for c in m.recurrent_classes], tolists(m.recurrent_classes_indices))}
+                    if m.is_irreducible:
+                        out["cyclic"] = ([np.asarray(c).tolist() for c in m.cyclic_classes], tolists(m.cyclic_classes_indices))
+                    return out
+                got = guarded(inp, labelled)      # this also (re)builds the digraph before the next set
+                ctx.count("seq:state_values:" + ("None" if cur is None else "labels"))
+                if got is not None:
+                    lab = None if cur is None else np.asarray(cur)
+                    for key, (lv, iv) in got.items():
+                        exp = iv if lab is None else [lab[c].tolist() for c in iv]
+                        if lv != exp:
+                            ctx.fail("stale_state_values", "labelled %s classes are not the indices mapped through the current state_values" % key,
+                                     inp, lv, exp)
+                    cs, ss = oracle(n, adj)
+                    if set(frozenset(c) for c in got["communication"][1]) != cs or set(frozenset(c) for c in got["recurrent"][1]) != ss:
+                        ctx.fail("scc", "classes changed by re-assigning state_values", inp, got["communication"][1], None)
+                guarded(inp, lambda: setattr(m, "state_values", nxt))
+                cur = nxt
     # ---- class 5/6: documented errors are raised as ValueError
     bad_calls = {"digraph_nonsquare": lambda: DiGraph(np.ones((2, 3))),
                  "digraph_labels_length": lambda: DiGraph(np.eye(3), node_labels=[1, 2]),
@@ -729,6 +765,70 @@ def explicit_zero_stream(ctx):
         if got != comps or gots != sinks:
             ctx.fail("explicit_zero_edge", "stored zero entries of a sparse matrix are treated as edges", inp,
                      [sorted(map(sorted, got)), sorted(map(sorted, gots))], [sorted(map(sorted, comps)), sorted(map(sorted, sinks))])
+
+
+def weighted_zero_stream(ctx):
+    """DiGraph(weighted=True) on sparse input with stored zero weights (explicit 0.0, entry zeroed in place,
+    COO duplicates +w/-w that cancel): the graph is the NONZERO-weight graph."""
+    from scipy import sparse
+    from quantecon import DiGraph
+    rng = ctx.rng
+    fixed = [(2, [[0], [1]], [(0, 1)]), (2, [[1], [1]], [(1, 0)]), (3, [[1], [2], [0]], [(0, 2), (2, 1)]), (3, [[1], [2], [2]], [(2, 0)])]
+    for t in range(16):
+        if t < len(fixed):
+            n, adj, zeros = fixed[t]
+        else:
+            n = rng.randrange(2, 7)
+            adj = random_pattern(rng, n, allow_empty=rng.random() < 0.3)
+            zeros = [(u, v) for u in range(n) for v in range(n) if v not in adj[u] and rng.random() < 0.35]
+            if not zeros:
+                continue
+        comps, sinks = oracle(n, adj)
+        one = len(comps) == 1
+        per_exp = (period_by_powers(range(n), adj) or 1) if one else -1
+        for how in ("explicit_zero", "zeroed_in_place", "coo_cancelling_duplicates"):
+            for fmt in ("csr", "csc", "coo"):
+                rows, cols, vals = [], [], []
+                for u in range(n):
+                    for v in adj[u]:
+                        rows.append(u); cols.append(v); vals.append(rng.choice([0.25, 0.5, 1.0, 2.5, 1e-9]))
+                for (u, v) in zeros:
+                    if how == "coo_cancelling_duplicates":
+                        w = rng.choice([0.5, 1.0, 3.0])
+                        rows += [u, u]; cols += [v, v]; vals += [w, -w]
+                    else:
+                        rows.append(u); cols.append(v); vals.append(0.0 if how == "explicit_zero" else 4.0)
+                M = sparse.coo_matrix((np.array(vals), (np.array(rows), np.array(cols))), shape=(n, n))
+                if fmt != "coo":
+                    M = M.tocsr() if fmt == "csr" else M.tocsc()
+                    if how == "zeroed_in_place":
+                        for (u, v) in zeros:
+                            M[u, v] = 0.0          # stays a stored entry
+                elif how == "zeroed_in_place":
+                    M.data[np.isin(M.data, [4.0])] = 0.0
+                inp = {"n": n, "adj": adj, "stored_zeros": zeros, "form": "weighted_%s_%s" % (fmt, how)}
+                labels = rng.choice([None, [10 + 3 * i for i in range(n)]])
+                try:
+                    g = DiGraph(M, weighted=True, node_labels=labels)
+                    o = digraph_outputs(g)
+                except Exception as ex:
+                    ctx.fail("explicit_zero_edge", "exception on weighted sparse input with stored zeros", inp, repr(ex), None)
+                    continue
+                ctx.case(("weighted_zeros", n, tuple(map(tuple, adj)), tuple(zeros), fmt, how), nontrivial=True)
+                ctx.count("form:weighted_%s_stored_zeros" % fmt)
+                ctx.count("stored_zero:" + how)
+                got = set(frozenset(c) for c in o["scc"])
+                gots = set(frozenset(c) for c in o["sink"])
+                bad = got != comps or gots != sinks or o["is_sc"] != one or o["period"] != per_exp
+                if one and not bad:
+                    cyc = o["cyclic"]
+                    cls = {x: k for k, c in enumerate(cyc or []) for x in c}
+                    bad = cyc is None or len(cyc) != per_exp or sorted(cls) != list(range(n)) or \
+                        any(cls[v] != (cls[u] + 1) % per_exp for u in range(n) for v in adj[u])
+                if bad:
+                    ctx.fail("explicit_zero_edge", "stored zero weights of a weighted sparse graph are treated as edges", inp,
+                             [sorted(map(sorted, got)), sorted(map(sorted, gots)), o["period"]],
+                             [sorted(map(sorted, comps)), sorted(map(sorted, sinks)), per_exp])
 
 
 def replay(data):
